@@ -47,7 +47,10 @@ exception Parse_error of string
 let is_digits s = s <> "" && String.for_all (fun c -> c >= '0' && c <= '9') s
 
 let atom s =
-  if is_digits s then M.N (nat_of_int (int_of_string s))
+  (* unary naturals: a numeral of more than 7 digits can only be an out-of-range index or count in an implementation
+     output (the generated inputs never contain one); it is passed on as the symbol hugenumber, which no decoder accepts *)
+  if is_digits s && String.length s > 7 then M.Sy (coqstring_of_string "hugenumber")
+  else if is_digits s then M.N (nat_of_int (int_of_string s))
   else if String.length s > 1 && s.[0] = '#' then M.Zv (coqz_of_z (BZ.of_string (String.sub s 1 (String.length s - 1))))
   else M.Sy (coqstring_of_string s)
 
